@@ -44,6 +44,9 @@ func main() {
 			usage()
 		}
 		os.Exit(replayCmd(os.Args[2]))
+	case "lemmas":
+		lemmaDeep = len(os.Args) > 2 && os.Args[2] == "--deep"
+		os.Exit(lemmasCmd())
 	case "list":
 		for id, pc := range propConfigs() {
 			fmt.Println(id, pc.Prefix)
